@@ -34,6 +34,13 @@ pub fn gate(name: &'static str, tag: u32) {
 
 fn arrive(path: &str, name: &'static str) {
     let tag = TAG.with(Cell::get);
+    // The caller is a tokio worker thread: tell the runtime that it is about
+    // to block, so that its run queue and the I/O driver are handed to
+    // another thread instead of standing still with it.
+    tokio::task::block_in_place(|| park(path, name, tag));
+}
+
+fn park(path: &str, name: &'static str, tag: u32) {
     let Ok(mut stream) = UnixStream::connect(path) else {
         return;
     };
